@@ -464,8 +464,9 @@ func (s *state) walkIncludeNode(node *parse.IncludeNode) (tpl string, ctx map[st
 		// Any map is a hash, whatever its Go type: a variable handed in
 		// through the context is rarely a map[string]Value.
 		if r := reflect.Indirect(reflect.ValueOf(with)); r.IsValid() && r.Kind() == reflect.Map {
-			for _, k := range r.MapKeys() {
-				ctx[CoerceString(k.Interface())] = r.MapIndex(k).Interface()
+			// MapRange, because a key such as NaN cannot be looked up again.
+			for it := r.MapRange(); it.Next(); {
+				ctx[CoerceString(it.Key().Interface())] = it.Value().Interface()
 			}
 		}
 	}
